@@ -72,12 +72,14 @@ class Sight:
         # adjust reticle scale relative to target distance and magnification
         def get_sfp_step(click_size: Angular):
             # Don't need distances conversion cause of it's destroying there
-            return click_size.units(
-                click_size.unit_value
+            # scale the angle itself (radians), so that the result does not depend on the unit the click size
+            # happens to be displayed in (tangent-based units are not proportional to the angle)
+            return Angular.Radian(
+                click_size.raw_value
                 * self.scale_factor.raw_value
                 / _td.raw_value
                 * magnification
-            )
+            ) << click_size.units
 
         _td = PreferredUnits.distance(target_distance)
         _h_step = get_sfp_step(self.h_click_size)
